@@ -90,9 +90,14 @@ Inductive lop :=
   (* LimitOrderBid for ONE auction (one ApplyFuncIfNoError closure): the auction has outstanding
      debt D and its discount truncates to [prem]; [whos] = the bidders of the records listed by
      GetUserLimitBidDataByPremium, in store order.  dutch_ok = every PlaceDutchAuctionBid
-     (isAutoBid) of the closure succeeded (else the closure is rolled back); spent = the module's
-     debt-denom coins, net of the proceeds the running auctions keep in the module, that the
-     Dutch settlement disbursed (environment, see C10). *)
+     (isAutoBid) of the closure succeeded (else the closure is rolled back: a record the
+     auction's stale copy can no longer be bid on, a collateral shortfall the app reserve cannot
+     cover, a missing price ...); spent = the net outflow of the module's debt-denom coins that the
+     Dutch settlement of the closure caused, not counting the coins the module keeps for running
+     auctions (their proceeds) and as booked fees of external auctions (environment, see C10).
+     It is the sum of the bids PlaceDutchAuctionBid actually placed: a closing bid is cut down to
+     the auction debt, or -- when the collateral runs short -- to the value of the left-over
+     collateral, the app reserve paying the rest INTO the module.  spent < 0 is a net inflow. *)
 
 Definition lift {A} (r : lres) (code : Z) (k : ledger -> outcome A) : outcome A :=
   match r with LOk l => k l | LErr => Err code | LPanic => Panic end.
@@ -123,7 +128,10 @@ Definition cancel (c : cfg) (s : lstate) (who coll debt prem : Z) : outcome lsta
 (* the loop body of LimitOrderBid over the listed records, against the auction record read BEFORE
    the loop (the code never re-reads it: every iteration sees the same D); returns the state and
    the amount the records were charged.  A record the listing names but the store no longer has
-   is not iterated.  The equal-amount branch returns from the closure. *)
+   is not iterated.  The equal-amount branch returns from the closure.  The record is charged by
+   what LimitOrderBid compares, not by what PlaceDutchAuctionBid placed: min(record, D), also when
+   the bid was cut down to the value of the left-over collateral (the difference stays in the
+   module, owned by no record: C10's concern, see [settle]). *)
 Fixpoint fill_recs (debt coll prem D : Z) (whos : list Z) (s : lstate) : lstate * Z :=
   match whos with
   | [] => (s, 0)
@@ -147,6 +155,10 @@ Fixpoint fill_recs (debt coll prem D : Z) (whos : list Z) (s : lstate) : lstate 
             (s', r_amt r + ch)
       end
   end.
+
+(* the net effect of the Dutch settlement on the module's free debt coins *)
+Definition settle (l : ledger) (d spent : Z) : lres :=
+  if spent <? 0 then LOk (mint_to l MOD d (- spent)) else burn_from l MOD d spent.
 
 Definition lstep (c : cfg) (s : lstate) (o : lop) : outcome lstate :=
   match o with
@@ -202,7 +214,7 @@ Definition lstep (c : cfg) (s : lstate) (o : lop) : outcome lstate :=
       let '(s1, _) := fill_recs debt coll prem D whos s in
       match denom_of c debt with
       | None => Ok s1                                             (* no such asset: no record either *)
-      | Some dd => lift (burn_from (led s1) MOD dd spent) 31 (fun l' => Ok (mkL (recs s1) (totals s1) l'))
+      | Some dd => lift (settle (led s1) dd spent) 31 (fun l' => Ok (mkL (recs s1) (totals s1) l'))
       end
   end.
 
